@@ -1,6 +1,7 @@
 package model
 
 import (
+	"path"
 	"sort"
 	"strings"
 )
@@ -297,6 +298,10 @@ func (in *Interp) stmt(s Stmt, sc *Scope, out *strings.Builder) (control, error)
 func ResolveName(name, dir string) string {
 	if strings.HasPrefix(name, "~") {
 		return dir + "/" + name[1:]
+	}
+	// spellings the file system resolves to the same file
+	if strings.HasPrefix(name, "./") || strings.Contains(name, "//") || strings.Contains(name, "/./") {
+		return path.Clean(name)
 	}
 	return name
 }
